@@ -1,6 +1,7 @@
 P = dict(
     harness='c12_cmdline.cpp',
-    variants=['asan'],
+    variants=['asan', 'memcheck'],
+    memcheck_stride=dict(quick=100, thorough=40),
     level='exploration',
     technique='runtime monitoring: independent reference parser of the help text\'s grammar (speaks only when an argv has exactly one reading as documented options) '
               'compared with every CommandLineArguments getter and with what CommandLineTestRunner executes on a probe registry (console/file/separate-process seams captured); '
